@@ -11,7 +11,7 @@ from ..core import AnalysisError, Ctx, norm, fold
 from ..pyfacts import dotted, calls_in, bind_args, guards_at
 
 META = {
-    "explanation": "Evaluated by-name flows: open/load/loads are run with Parser and MapfileToDict replaced by recorders and every option an opaque marker - each marker must arrive under the constructor parameter of the same name, the input must reach the parser, the tree the transformer, and the transformer's result must be returned (L1); dumps/dump/save are run with PrettyPrinter replaced by a recorder - the seven option markers arrive by name, the dictionary reaches pprint(), its text is returned / written to fp / written to the named file opened with encoding utf-8; the real constructor is evaluated with symbolic options and stores each in the field the methods read (L2); every open()/codecs.open() of the package passes encoding='utf-8' (L3); 'format' is save(open(IN, expand_includes=expand, include_comments=comments), OUT, indent.., newlinechar..) by name (L4); 'schema' writes json.dumps of Validator().get_versioned_schema(version) (L5); the include pre-pass joins with the separator it split on (L6); PAI evaluates the body of 'validate' (click, mappyfile.open and mappyfile.validate stubbed) on every scenario of up to two files x {unparseable, 0, 1, 2 messages}: exit status 0 iff all files parsed and validated, else the number of problems; the exit expression is then evaluated with an unbounded symbolic counter and must stay within [1, 255] (P11).",
+    "explanation": "Evaluated by-name flows: open/load/loads are run with Parser and MapfileToDict replaced by recorders and every option an opaque marker - each marker must arrive under the constructor parameter of the same name, the input must reach the parser, the tree the transformer, and the transformer's result must be returned (L1); dumps/dump/save are run with PrettyPrinter replaced by a recorder - the seven option markers arrive by name, the dictionary reaches pprint(), its text is returned / written to fp / written to the named file opened with encoding utf-8; the real constructor is evaluated with symbolic options and stores each in the field the methods read (L2); every open()/codecs.open() of the package passes encoding='utf-8' (L3); 'format' is evaluated with recorder stand-ins for open and save in two flag settings: open receives IN and the --expand / --comments values, save receives the object open returned, OUT, the indent given and spacer / quote / newlinechar with their escape sequences decoded - recorded arguments are bound to the API signatures, whether passed by name, position or ** (L4); 'schema' writes json.dumps of Validator().get_versioned_schema(version) (L5); the include pre-pass joins with the separator it split on (L6); PAI evaluates the body of 'validate' (click, mappyfile.open and mappyfile.validate stubbed) on every scenario of up to two files x {unparseable, 0, 1, 2 messages}: exit status 0 iff all files parsed and validated, else the number of problems; the exit expression is then evaluated with an unbounded symbolic counter and must stay within [1, 255] (P11).",
     "level_text": "The front ends are thin; their agreement with the string API is a matter of which functions they call with which arguments, which is decided exactly from the call structure. Exit-status arithmetic is decided by abstract evaluation over the scenario space and an interval argument for the unbounded counter.",
     "level_note": "Trusted: codec fidelity of Python's utf-8 codec, click's argument handling, real process exit semantics (status modulo 256). Byte-level file contents are not examined.",
     "technique": "resolved call-graph / argument-binding rules + abstract interpretation of the CLI command body with interval bounds",
